@@ -723,7 +723,8 @@ Proof.
     apply in_map_iff in Hx. destruct Hx as (x0 & <- & Hx0). rewrite Forall_forall in Dd. pose proof (Dd x0 Hx0). lia.
   - etransitivity; [apply total_add_first|]. rewrite total_map_add. unfold zi. rewrite Z2Nat.id by lia.
     rewrite Ld. fold m. lia.
-  - rewrite add_first_length, map_length. exact Ld.
+  - rewrite Em. exact Hn.
+  - rewrite add_first_length, map_length, Em. exact Ld.
 Qed.
 
 (* [F] the sequence of improveXTransport / improveYTransport: balanceDemand(), then assign() *)
@@ -733,13 +734,90 @@ Proof.
   destruct (balance_demand pb) as [pb'|e] eqn:E; [|constructor]. apply assign_vals_fit. eapply balance_dom; eassumption.
 Qed.
 
+(* the sorted problem handed to the solver is in the solver's magnitude domain *)
+Lemma convert_mag pb : t1d_dom pb -> checked pb ->
+  let P := convert (mk_sorter pb) pb in
+  total (sd P) <= TOTB /\ zi (n_src P) + zi (n_snk P) < 2147483647.
+Proof.
+  intros (Du & Dv & Ds & Dd & Ts & Td & Hn & Ls & Ld) C P.
+  pose proof (sorted_fst (pb_u pb) (pb_s pb)) as Fu. pose proof (sorted_fst (pb_v pb) (pb_d pb)) as Fv.
+  split.
+  - subst P. unfold convert, mk_sorter. cbn [sd snkOrder]. rewrite (order_total _ _ (c_ld _ C) (c_d _ C)). exact Td.
+  - assert (Lsrc : (n_src P <= length (pb_u pb))%nat).
+    { unfold n_src. subst P. unfold convert, mk_sorter. cbn [su srcOrder]. rewrite !map_length. apply sorted_length. }
+    assert (Lsnk : (n_snk P <= length (pb_v pb))%nat).
+    { unfold n_snk. subst P. unfold convert, mk_sorter. cbn [sv snkOrder]. rewrite !map_length. apply sorted_length. }
+    unfold zi in *. lia.
+Qed.
+
 (* [F] computeSolution on the positions computed by run (the path of solve()) *)
 Theorem solve_solution_vals_fit pb p : t1d_dom pb -> check pb = None -> run (convert (mk_sorter pb) pb) = Some p ->
   Forall fits (solution_vals (convert (mk_sorter pb) pb) p).
 Proof.
-  intros (Du & Dv & Ds & Dd & Ts & Td & Hn & Ls & Ld) Ck R.
+  intros D Ck R.
   pose proof (check_none pb Ck) as C. pose proof (convert_wf pb C) as W.
-  destruct (run_geom _ p W R) as [Ln G].
-  apply solution_vals_fit; try assumption.
-  unfold convert, mk_sorter. cbn [sd snkOrder]. rewrite (order_total _ _ (c_ld _ C) (c_d _ C)). exact Td.
+  destruct (run_geom _ p W R) as [Ln G]. destruct (convert_mag pb D C) as [HT HN].
+  apply solution_vals_fit; assumption.
+Qed.
+
+(* ---------------------------------------------------------------- examples *)
+(* non-vacuity at the upper end of the domain: positions +-2^59, total supply 2^61, balanceDemand needed *)
+Definition ex_t1d : prob :=
+  {| pb_u := [-POSB; 0; 17; POSB]; pb_v := [-POSB; 5; POSB];
+     pb_s := [1152921504606846976; 576460752303423488; 7; 576460752303423481];
+     pb_d := [1152921504606846976; 0; 576460752303423488] |}.
+
+Lemma dom_by_compute pb :
+  forallb (fun x => (- POSB <=? x) && (x <=? POSB)) (pb_u pb) && forallb (fun x => (- POSB <=? x) && (x <=? POSB)) (pb_v pb)
+  && forallb (fun x => 0 <=? x) (pb_s pb) && forallb (fun x => 0 <=? x) (pb_d pb)
+  && (total (pb_s pb) <=? TOTB) && (total (pb_d pb) <=? TOTB)
+  && (zi (length (pb_u pb)) + zi (length (pb_v pb)) <? 2147483647)
+  && Nat.eqb (length (pb_s pb)) (length (pb_u pb)) && Nat.eqb (length (pb_d pb)) (length (pb_v pb)) = true -> t1d_dom pb.
+Proof.
+  intros H. repeat (apply andb_prop in H; destruct H as [H ?]).
+  unfold t1d_dom. repeat split.
+  - apply Forall_forall. intros x Hx. rewrite forallb_forall in H. specialize (H x Hx). lia.
+  - apply Forall_forall. intros x Hx. rewrite forallb_forall in H7. specialize (H7 x Hx). lia.
+  - apply Forall_forall. intros x Hx. rewrite forallb_forall in H6. specialize (H6 x Hx). lia.
+  - apply Forall_forall. intros x Hx. rewrite forallb_forall in H5. specialize (H5 x Hx). lia.
+  - lia.
+  - lia.
+  - lia.
+  - apply Nat.eqb_eq. assumption.
+  - apply Nat.eqb_eq. assumption.
+Qed.
+
+Definition tv_eqb (a b : cty * Z) : bool :=
+  match fst a, fst b with I32, I32 | I64, I64 => snd a =? snd b | _, _ => false end.
+Lemma in_by_compute (v : cty * Z) l : existsb (tv_eqb v) l = true -> In v l.
+Proof.
+  intros H. apply existsb_exists in H. destruct H as ([t x] & Hin & E). destruct v as [t' y].
+  unfold tv_eqb in E. cbn [fst snd] in E. destruct t', t; try discriminate; apply Z.eqb_eq in E; subst; exact Hin.
+Qed.
+
+Example t1d_nonvacuous :
+  t1d_dom ex_t1d /\
+  (exists pb', balance_demand ex_t1d = Ok pb' /\ pb_d pb' = [1345075088707988139; 192153584101141163; 768614336404564650]
+               /\ assign pb' = Ok [0%nat; 1%nat; 2%nat; 2%nat]) /\
+  length (balance_assign_vals ex_t1d) = 216%nat /\
+  In (I64, 2305843009213693952) (balance_assign_vals ex_t1d).
+Proof.
+  split; [apply dom_by_compute; vm_compute; reflexivity|].
+  split; [eexists; split; [vm_compute; reflexivity|split; vm_compute; reflexivity]|].
+  split; [vm_compute; reflexivity|].
+  apply in_by_compute. vm_compute. reflexivity.
+Qed.
+
+(* sanity: long long is needed -- at the scale of the rough legalizer (positions scaled to 10^8, supplies = cell
+   areas below 2^31) the cumulative demands do not fit int *)
+Definition ex_t1d_small : prob :=
+  {| pb_u := [0; 50000000; 100000000]; pb_v := [25000000; 75000000];
+     pb_s := [2000000000; 2000000000; 1500000000]; pb_d := [3000000000; 2000000000] |}.
+Example t1d_int_would_overflow :
+  t1d_dom ex_t1d_small /\ exists v, In (I64, v) (balance_assign_vals ex_t1d_small) /\ ~ fits (I32, v).
+Proof.
+  split; [apply dom_by_compute; vm_compute; reflexivity|].
+  exists 5500000000. split.
+  - apply in_by_compute. vm_compute. reflexivity.
+  - unfold fits; cbn [fst snd]. lia.
 Qed.
